@@ -10,7 +10,9 @@ import IOptGen.GrishaginTables
 import IOptGen.HillTables
 import IOptGen.ListenerSig
 import IOptGen.Meta
+import IOptGen.MethodSrc
 import IOptGen.NodeTable
 import IOptGen.SelfCheck
 import IOptGen.Shekel4Tables
 import IOptGen.ShekelTables
+import IOptGen.StronginC3Src
